@@ -631,7 +631,8 @@ void RowReordering::addRow(int row, int cellPred, int cellNext) {
   newRow.row = row;
   newRow.cellPred = cellPred;
   newRow.cellNext = cellNext;
-  assert(cellPred != cellNext);
+  // The two boundaries are distinct cells, unless the run spans the whole row
+  assert(cellPred != cellNext || cellPred == -1);
   assert(cellPred == -1 || placement_.cellRow(cellPred) == row);
   assert(cellNext == -1 || placement_.cellRow(cellNext) == row);
   newRow.minPos = placement_.boundaryAfter(row, cellPred);
